@@ -51,6 +51,10 @@ fn cfg_desc(kind: &str, w: Option<WriterKind>, n: usize, chunks: &[usize], pend:
 fn judge(acc: &mut Acc, iface: &IfaceDesc, inputs: &[&[u8]], cfg: J, out: &RunOut) {
     acc.res.evaluations += 1;
     let total: usize = inputs.iter().map(|i| i.len()).sum();
+    if acc.res.samples.len() < 2 && total > 3 && !out.log.is_empty() {
+        let c = cfg.clone();
+        acc.res.sample(|| J::obj(vec![("iface", J::s(iface.name)), ("inputs", J::Arr(inputs.iter().map(|i| J::s(esc(&i[..i.len().min(120)]))).collect())), ("config", c), ("events", J::strs(out.log.iter().take(8).map(|e| e.show()))), ("panic", J::s(format!("{:?}", out.panic)))]));
+    }
     let mut viol: Option<(String, String)> = None;
     if let Some(p) = &out.panic {
         if out.harness_abort() {
@@ -508,11 +512,13 @@ pub fn run(ctx: &Ctx) -> PropResult {
     res.cov("process_n_values_random_and_long", J::Arr(nsv.into_iter().map(|n| J::Int(n as i64)).collect()));
     res.cov("writers_random", J::strs(caps.into_iter()));
     res.cov("max_input_len", max_in);
-    res.samples = vec![
+    res.samples.truncate(5);
+    let described: Vec<J> = vec![
         J::s("run(\"A:B 1;C\\n\") with heapless::Vec<u8,2>"),
         J::s("process::<3>(\"B:C?\\n\") byte-wise"),
         J::s(format!("long inputs: {}", long_inputs().iter().map(|x| x.0.clone()).collect::<Vec<_>>().join(", "))),
     ];
+    res.samples.extend(described.into_iter().take(1));
     res.assumptions = vec![
         "handlers do not panic".into(),
         "the class alphabet represents the distinctions the grammar makes; bytes outside it are reached only by the random and long layers".into(),
